@@ -20,6 +20,12 @@ func (p *Program) extraCoverage(prop string) map[string]interface{} {
 	if p.audits != nil {
 		out["assumption_audits"] = p.audits
 	}
+	if p.quickAudits != nil {
+		out["assumption_audits_quick"] = p.quickAudits
+	}
+	if p.conformanceNote != "" {
+		out["dependency_conformance_audit"] = p.conformanceNote
+	}
 	if p.engineTest != nil {
 		out["engine_semantics_selftest"] = p.engineTest
 	}
